@@ -104,7 +104,7 @@ func c13sGen(t *rapid.T) c13sCase {
 				p.Begin(false)
 			}
 			n := c13sGenLen(t, p, &huge)
-			ops = append(ops, c13sOp{K: k, I: i, D: h.C13Content(t, "d", n), More: more})
+			ops = append(ops, c13sOp{K: k, I: i, D: h.C13Content(t, "d", n), More: more, G: g})
 			if more && cur[i] != fl {
 				// object is dropped by the checker after the expected panic
 				pos = append(pos[:i:i], pos[i+1:]...)
@@ -119,7 +119,7 @@ func c13sGen(t *rapid.T) c13sCase {
 		case x < 68:
 			p := h.C13Pos{}
 			n := c13sGenLen(t, p, &huge)
-			ops = append(ops, c13sOp{K: "key", I: i, D: h.C13Content(t, "d", n)})
+			ops = append(ops, c13sOp{K: "key", I: i, D: h.C13Content(t, "d", n), G: g})
 			p.Absorb(n)
 			pos[i], cur[i] = p, c13sFlagsKEY
 		case x < 84:
@@ -156,6 +156,14 @@ func c13sSel(i, n int) int {
 		i = -i
 	}
 	return i % n
+}
+
+// nil and empty slices are the same zero-length data
+func c13sNilIfEmpty(b []byte, g int) []byte {
+	if len(b) == 0 && g&1 == 1 {
+		return nil
+	}
+	return b
 }
 
 func c13sShort(b []byte) string {
@@ -218,7 +226,7 @@ func c13sCheck(c c13sCase) h.Result {
 			if op.K == "mad" {
 				fl = c13sFlagsMAD
 			}
-			data := op.D.Bytes()
+			data := c13sNilIfEmpty(op.D.Bytes(), op.G)
 			call := func() {
 				if op.K == "ad" {
 					lib[i].AD(data, op.More)
@@ -246,7 +254,7 @@ func c13sCheck(c c13sCase) h.Result {
 			mod[i].Operate(fl, op.D.Bytes(), 0, op.More)
 			cur[i] = fl
 		case "key":
-			data := op.D.Bytes()
+			data := c13sNilIfEmpty(op.D.Bytes(), op.G)
 			lib[i].KEY(data)
 			// "side-effects are rude": the caller's key material is not modified
 			if !bytes.Equal(data, op.D.Bytes()) {
@@ -259,7 +267,7 @@ func c13sCheck(c c13sCase) h.Result {
 			if n < 0 {
 				n = -n
 			}
-			dest := bytes.Repeat([]byte{byte(op.G)}, n)
+			dest := c13sNilIfEmpty(bytes.Repeat([]byte{byte(op.G)}, n), op.G)
 			lib[i].PRF(dest)
 			want := mod[i].PRF(n, false)
 			r.Eval(1)
